@@ -73,10 +73,13 @@ def replay(scn):
         forms = [("list", "i"), ("tuple", "s"), ("dict", "i"), ("dict", "s"), ("list", "default"), ("dict+keys", "s"), ("dict+keys", "i")]
     else:
         forms = [("list", "name"), ("tuple", "pos"), ("list", "negpos")]
-    for lk in ("i", "s"):
-        codec = A.LabelCodec()
+    for lk in ("i", "s", "f@big"):
+        # f@big: float labels around 1e6 spaced by 0.5 (equal only if exactly equal); 20200101-like magnitudes
+        codec = A.LabelCodec(offset=(2000000 if lk == "f@big" else 0))
         for cont, kk in forms:
-            objs = [A.gamma(a, codec, [lk] * len(a["dims"])) for a in i["arrs"]]
+            if lk == "f@big" and kk in ("i", "default"):
+                continue        # (integer keys would be decoded with the float labels' offset)
+            objs = [A.gamma(a, codec, [lk[0]] * len(a["dims"])) for a in i["arrs"]]
             before = [A.snapshot(o) for o in objs]
             variant = "%s/%s/%s" % (lk, cont, kk)
             calls += 1
